@@ -30,14 +30,15 @@ import (
 )
 
 type OpA struct {
-	K      string `json:"k"`   // open write close shot log
-	Via    string `json:"via"` // open/write/close: fs bof api; log: input raw output
+	K      string `json:"k"`   // open write close shot log xfer
+	Via    string `json:"via"` // open/write/close: fs bof api; log: input raw output; xfer: list stop resume remove remove2
 	Ag     int    `json:"ag"`
 	FID    uint32 `json:"fid,omitempty"`
 	Name   string `json:"name,omitempty"`
 	Size   uint64 `json:"size,omitempty"`
 	Data   []byte `json:"data,omitempty"`
 	Reason uint32 `json:"reason,omitempty"` // fs close: 0 finished, 1 removed
+	Found  bool   `json:"found,omitempty"`  // xfer: the Demon's "Found" flag
 	Text   string `json:"text,omitempty"`
 }
 
@@ -98,7 +99,7 @@ func genA(t *rapid.T) CaseA {
 		if na == 2 {
 			other = c.Agents[1-op.Ag]
 		}
-		k := rapid.IntRange(0, 11).Draw(t, "kind")
+		k := rapid.IntRange(0, 13).Draw(t, "kind")
 		switch {
 		case k < 3:
 			op.K = "open"
@@ -108,12 +109,20 @@ func genA(t *rapid.T) CaseA {
 			op.K = "close"
 		case k < 11:
 			op.K = "shot"
-		default:
+		case k < 12:
 			op.K = "log"
+		default:
+			op.K = "xfer"
 		}
 		switch op.K {
-		case "open", "write", "close":
-			op.Via = rapid.SampledFrom(vias).Draw(t, "via")
+		case "open", "write", "close", "xfer":
+			if op.K == "xfer" {
+				// the agent's acknowledgement of an operator's "transfer list/stop/resume/remove"
+				op.Via = rapid.SampledFrom([]string{"stop", "stop", "stop", "resume", "resume", "remove", "remove2", "list"}).Draw(t, "xfersub")
+				op.Found = rapid.IntRange(0, 3).Draw(t, "found") != 0
+			} else {
+				op.Via = rapid.SampledFrom(vias).Draw(t, "via")
+			}
 			cur := openFids(op.Ag)
 			switch {
 			case op.K != "open" && len(cur) > 0 && rapid.IntRange(0, 9).Draw(t, "toopen") < 7:
@@ -370,6 +379,36 @@ func checkA(c CaseA) *core.Violation {
 			delete(open, key)
 			lastWriter = "DownloadClose"
 
+		case "xfer":
+			// COMMAND_TRANSFER acknowledgements (Command.c:2611-2736 CommandTransfer): they report
+			// what the Demon did to ITS transfer list; on the teamserver they produce a console
+			// line and nothing else — the stopped/removed download keeps its file, its bytes and
+			// (until the Demon's close callback, which a remove triggers) its entry.
+			e := &demonref.Enc{}
+			found := uint32(0)
+			if op.Found {
+				found = 1
+			}
+			switch op.Via {
+			case "list": // [sub] then FileID, ReadSize, State per transfer
+				e.Int32(0).Int32(op.FID).Int32(uint32(len(op.Data))).Int32(1).Int32(0x99).Int32(7).Int32(2)
+			case "stop":
+				e.Int32(1).Int32(found).Int32(op.FID)
+			case "resume":
+				e.Int32(2).Int32(found).Int32(op.FID)
+			case "remove":
+				e.Int32(3).Int32(found).Int32(op.FID)
+			default: // "remove2": the second package of a remove, [sub][FileID][DOWNLOAD_REASON_REMOVED] (Command.c:2724-2728)
+				e.Int32(3).Int32(op.FID).Int32(1)
+			}
+			dispatch(a, agent.COMMAND_TRANSFER, e.B)
+			desc = fmt.Sprintf("transfer %s ack found=%v agent %s fid %#x", op.Via, op.Found, id, op.FID)
+			p := permit{writer: "TransferAck", region: dl, noWriteSig: "ack-changed-disk"}
+			if v := w.judge(i, desc, p); v != nil {
+				return v
+			}
+			lastWriter = "TransferAck"
+
 		case "shot":
 			e := &demonref.Enc{}
 			e.Int32(1).Bytes(tinyBMP)
@@ -447,6 +486,8 @@ func classifyA(c CaseA) core.Class {
 	vias := map[string]bool{}
 	var anyName nameClass
 	interleaved, stray := false, false
+	stopped := map[xkey]bool{}
+	xferOnOpen, writeAfterStop := false, false
 	maxOpen := 0
 	na := len(c.Agents)
 	if na == 0 {
@@ -494,6 +535,10 @@ func classifyA(c CaseA) core.Class {
 				cl.Labels = append(cl.Labels, "stray-"+op.K)
 			} else if op.K == "write" {
 				cl.Labels = append(cl.Labels, "write-to-open-transfer")
+				if stopped[key] {
+					writeAfterStop = true
+					cl.Labels = append(cl.Labels, "write-after-stop-ack")
+				}
 				for k := range open {
 					if k.ag == ai && k != key {
 						interleaved = true
@@ -502,6 +547,18 @@ func classifyA(c CaseA) core.Class {
 			}
 			if op.K == "close" {
 				delete(open, key)
+				delete(stopped, key)
+			}
+		case "xfer":
+			cl.Labels = append(cl.Labels, "xfer:"+op.Via)
+			if open[key] {
+				xferOnOpen = true
+				cl.Labels = append(cl.Labels, "xfer-on-open-transfer")
+				if op.Found && (op.Via == "stop" || op.Via == "remove") {
+					stopped[key] = true
+				}
+			} else {
+				cl.Labels = append(cl.Labels, "xfer-on-unknown-or-closed-id")
 			}
 		case "log":
 			cl.Labels = append(cl.Labels, "log:"+op.Via)
@@ -513,15 +570,15 @@ func classifyA(c CaseA) core.Class {
 	if maxOpen > 3 {
 		maxOpen = 3
 	}
-	cl.NonTrivial = anyName.dotdot || anyName.mixed || anyName.prefixSib || interleaved
-	cl.Fingerprint = fmt.Sprintf("ag=%d|dd=%v|mix=%v|sib=%v|open=%d|il=%v|vias=%d|stray=%v", len(c.Agents), anyName.dotdot, anyName.mixed, anyName.prefixSib, maxOpen, interleaved, len(vias), stray)
+	cl.NonTrivial = anyName.dotdot || anyName.mixed || anyName.prefixSib || interleaved || writeAfterStop
+	cl.Fingerprint = fmt.Sprintf("ag=%d|dd=%v|mix=%v|sib=%v|open=%d|il=%v|vias=%d|stray=%v|xfer=%v|was=%v", len(c.Agents), anyName.dotdot, anyName.mixed, anyName.prefixSib, maxOpen, interleaved, len(vias), stray, xferOnOpen, writeAfterStop)
 	return cl
 }
 
 func TestC07a(t *testing.T) {
 	core.Run(t, core.Spec[CaseA]{
 		Property: "C07", Sub: "a",
-		Rule: "1-2 Demon agents, 1-4 file ids, 1-24 steps of open/write/close (also for unknown and closed ids)/screenshot/console-log, each delivered via the real TaskDispatch as COMMAND_FS download callbacks, as BEACON_OUTPUT CALLBACK_FILE* callbacks (reference-encoded as the Demon does) or by calling DownloadAdd/Write/Close; names from a path grammar (.., ., empty, Download/Downloads/Download_x/Down, Screenshots*, own and foreign agent ids, 300-char, NUL, C:, UNC; separators / \\ // \\\\ /\\ \\/, leading/trailing). Oracle after every step: recursive listing (with contents) of a root four levels above the loot root; every created/changed file is the step's own target inside agents/<id>/Download (resp. Screenshots/Desktop_*.png, Console_<id>.log), every created directory is agents/<id>, its Download/Screenshots folder or inside the Download folder; each download file equals the concatenation of the chunks of the transfer that created it; stray writes/closes change nothing; plain names must be accepted. Non-trivial: a name with .., mixed/doubled separators or a prefix-sharing sibling, or a write while >=2 transfers of the agent are open; distinct = (#agents, dotdot, sepmix, sibling, max open, interleaved, #vias, stray)",
+		Rule: "1-2 Demon agents, 1-4 file ids, 1-24 steps of open/write/close (also for unknown and closed ids)/screenshot/console-log/transfer-control acknowledgement (COMMAND_TRANSFER list, stop, resume, remove and the remove follow-up package, Found true/false, for open, unknown and closed file ids of either agent), each delivered via the real TaskDispatch as COMMAND_FS download callbacks, as BEACON_OUTPUT CALLBACK_FILE* callbacks (reference-encoded as the Demon does) or by calling DownloadAdd/Write/Close; names from a path grammar (.., ., empty, Download/Downloads/Download_x/Down, Screenshots*, own and foreign agent ids, 300-char, NUL, C:, UNC; separators / \\ // \\\\ /\\ \\/, leading/trailing). Oracle after every step: recursive listing (with contents) of a root four levels above the loot root; every created/changed file is the step's own target inside agents/<id>/Download (resp. Screenshots/Desktop_*.png, Console_<id>.log), every created directory is agents/<id>, its Download/Screenshots folder or inside the Download folder; each download file equals the concatenation of the chunks of the transfer that created it; stray writes/closes change nothing; a transfer-control acknowledgement changes nothing on disk and does not end the transfer (chunks that follow a stop/resume/remove acknowledgement are appended as before); plain names must be accepted. Non-trivial: a name with .., mixed/doubled separators or a prefix-sharing sibling, or a write while >=2 transfers of the agent are open, or a chunk after a stop/remove acknowledgement; distinct = (#agents, dotdot, sepmix, sibling, max open, interleaved, #vias, stray, ack on open transfer, write after stop)",
 		Gen:  genA, Check: checkA, Classify: classifyA,
 		Assumptions: []string{
 			"file ids and target files of simultaneously open transfers of one agent differ (steps violating this are skipped)",
